@@ -8,6 +8,7 @@ package libp2p
 // notifier and the real block list, so registration, notification and blocking are observed.
 
 import (
+	"fmt"
 	"bytes"
 	"context"
 	"crypto/ecdsa"
@@ -269,6 +270,16 @@ func c04Prim(sig, msg []byte) c04Verify {
 	return p
 }
 
+type c04SharedHS struct {
+	hs  *handshake.Service
+	reg *c04Reg
+}
+
+var c04Shared = struct {
+	mu sync.Mutex
+	m  map[string]*c04SharedHS
+}{m: map[string]*c04SharedHS{}}
+
 func c04Run(t *testing.T, in *c04In, w *c04World, ed bool) (obs c04Obs) {
 	obs.Written = []c04Frame{}
 	defer func() {
@@ -276,12 +287,28 @@ func c04Run(t *testing.T, in *c04In, w *c04World, ed bool) (obs c04Obs) {
 			obs.Panic = true
 		}
 	}()
-	ks := mockkeysigner.NewMockKeySigner(w.localKey, crypto.PubkeyToAddress(w.localKey.PublicKey))
-	reg := &c04Reg{answer: in.Registered}
-	hs, err := handshake.New(ks, p2p.PeerType(in.LocalRole), "token-local", signer.New(), reg, GetEthAddressFromPeerID)
-	if err != nil {
-		t.Fatal(err)
+	// one handshake service per local role for the whole run, as in the node (a node has one for
+	// its lifetime); the scripted registry's answer is what changes from case to case
+	key := fmt.Sprintf("%p/%d", w, in.LocalRole)
+	c04Shared.mu.Lock()
+	sh, ok := c04Shared.m[key]
+	if !ok {
+		ks := mockkeysigner.NewMockKeySigner(w.localKey, crypto.PubkeyToAddress(w.localKey.PublicKey))
+		reg := &c04Reg{}
+		hs, err := handshake.New(ks, p2p.PeerType(in.LocalRole), "token-local", signer.New(), reg, GetEthAddressFromPeerID)
+		if err != nil {
+			c04Shared.mu.Unlock()
+			t.Fatal(err)
+		}
+		sh = &c04SharedHS{hs, reg}
+		c04Shared.m[key] = sh
 	}
+	c04Shared.mu.Unlock()
+	hs, reg := sh.hs, sh.reg
+	reg.mu.Lock()
+	reg.answer, reg.lookups = in.Registered, 0
+	reg.mu.Unlock()
+	var err error
 	pid := w.remoteID
 	if ed {
 		pid = w.edID
